@@ -29,71 +29,66 @@ def patterns(p):
     return out
 
 
-def _resolve_local(f, e, depth=0):
-    """follow single assignments of plain names: returns the defining expression text chain root"""
-    seen = []
-    while isinstance(e, ast.Name) and depth < 6:
-        defs = [n.value for n in walk_no_nested(f.node) if isinstance(n, ast.Assign) and any(isinstance(t, ast.Name) and t.id == e.id for t in n.targets)]
-        if not defs:
-            break
-        seen.append(e.id)
-        # last definition before use is what matters in straight-line pattern code; take the one nearest above
-        e = defs[-1]
-        depth += 1
-    return e
-
-
-def _role(f, e):
-    """'outer' if the value is read from the matched node x (x.origin.args[k]); 'inner' if read from a
-    node reached through x's operand (input.origin.args[k] with input derived from x.origin.args[0])."""
-    x = f.params[1] if len(f.params) > 1 else None
-    text = norm(e)
-    if isinstance(e, ast.Name):
-        # a name with several definitions (input = x.origin.args[0]; input = _skip_id(input)) : use all
-        defs = [n.value for n in walk_no_nested(f.node) if isinstance(n, ast.Assign) and any(isinstance(t, ast.Name) and t.id == e.id for t in n.targets)]
-        roles = {_role(f, d) for d in defs}
-        roles.discard(None)
-        return roles.pop() if len(roles) == 1 else None
-    ch = attr_chain(e.value) if isinstance(e, ast.Subscript) else attr_chain(e)
-    if isinstance(e, ast.Subscript) and ch and "origin" in ch:
-        root = ch[0]
-        if root == x:
-            return "outer"
-        # root is a local derived from x.origin.args[0]
-        rdefs = [n.value for n in walk_no_nested(f.node) if isinstance(n, ast.Assign) and any(isinstance(t, ast.Name) and t.id == root for t in n.targets)]
-        if any(norm(d).startswith(f"{x}.origin.args[0]") or "_skip_id(" in norm(d) for d in rdefs):
-            return "inner"
-    if isinstance(e, ast.Call) and isinstance(e.func, ast.Name) and e.func.id in ("tuple", "list") and e.args:
-        return _role(f, e.args[0])
+def _perm_role(P, e):
+    """'outer' if the value is the matched node's own parameter (x.origin.args[1]); 'inner' if it is the parameter
+    of the node reached through x's operand (~(x.origin.args[0]).origin.args[1])."""
+    pth = P.path(e)
+    for wrap in ("tuple(", "list("):
+        if pth.startswith(wrap) and pth.endswith(")"):
+            pth = pth[len(wrap) : -1]
+    if pth == "x.origin.args[1]":
+        return "outer"
+    if pth.endswith(".origin.args[1]") and "x.origin.args[0]" in pth and pth.count(".origin.") >= 2:
+        return "inner"
     return None
+
+
+def _index_comps(node):
+    """comprehensions of the form `A[p] for p in B` below node"""
+    out = []
+    for n in ast.walk(node):
+        if isinstance(n, (ast.GeneratorExp, ast.ListComp)) and isinstance(n.elt, ast.Subscript) and len(n.generators) == 1 and isinstance(n.generators[0].target, ast.Name):
+            if isinstance(n.elt.slice, ast.Name) and n.elt.slice.id == n.generators[0].target.id:
+                out.append(n)
+    return out
 
 
 def r1(p, rep):
     rep.rule("C05.R1", "merged transpose = inner permutation indexed by the outer permutation", "T-DER [S]", floor=1)
     f = p.func("SkipTranspose.__call__", "tracer.optimizer.classical")
-    comps = []
+    P = Paths(p, f, identity_skipper(p))
+    found = []
+    # (a) the composition written in the pattern itself
+    for c in [c for n in walk_no_nested(f.node) if isinstance(n, (ast.Assign, ast.Return, ast.Expr)) for c in _index_comps(n)]:
+        found.append((c, _perm_role(P, c.elt.value), _perm_role(P, c.generators[0].iter)))
+    # (b) written in a helper of the optimiser package: compose(a, b) -> `a[p] for p in b` over its parameters
     for n in walk_no_nested(f.node):
-        if isinstance(n, (ast.GeneratorExp, ast.ListComp)) and isinstance(n.elt, ast.Subscript) and len(n.generators) == 1 and isinstance(n.generators[0].target, ast.Name):
-            if isinstance(n.elt.slice, ast.Name) and n.elt.slice.id == n.generators[0].target.id:
-                comps.append(n)
-    # numpy style: np.asarray(inner)[list(outer)] / np.take(inner, outer)
-    takes = [n for n in walk_no_nested(f.node) if isinstance(n, ast.Call) and norm(n.func).endswith(".take") and len(n.args) == 2]
-    if not comps and not takes:
-        raise AnalysisError("unrecognised idiom: SkipTranspose.__call__ does not compose permutations in a recognised form (inner[p] for p in outer / np.take(inner, outer))")
-    for c in comps:
-        indexed, iterated = c.elt.value, c.generators[0].iter
-        ri, ro = _role(f, indexed), _role(f, iterated)
+        if isinstance(n, ast.Call):
+            r = resolve_callee(p, n, f.module)
+            if r and r[0] == "func" and r[1].module.name.startswith("einx._src.tracer.optimizer") and r[1] is not identity_skipper(p):
+                h = r[1]
+                for c in _index_comps(h.node):
+                    a, b = c.elt.value, c.generators[0].iter
+                    if isinstance(a, ast.Name) and isinstance(b, ast.Name) and a.id in h.params and b.id in h.params:
+                        ia, ib = h.params.index(a.id), h.params.index(b.id)
+                        if ia < len(n.args) and ib < len(n.args):
+                            found.append((c, _perm_role(P, n.args[ia]), _perm_role(P, n.args[ib])))
+    # numpy style: np.take(inner, outer)
+    for n in walk_no_nested(f.node):
+        if isinstance(n, ast.Call) and norm(n.func).endswith(".take") and len(n.args) == 2:
+            found.append((n, _perm_role(P, n.args[0]), _perm_role(P, n.args[1])))
+    found = [x for x in found if x[1] or x[2]]
+    if not found:
+        raise AnalysisError("unrecognised idiom: SkipTranspose does not compose permutations in a recognised form (inner[p] for p in outer / helper(inner, outer) / np.take(inner, outer))")
+    for c, ri, ro in found:
         ok = ri == "inner" and ro == "outer"
         rep.add(
             "C05.R1",
             f"{f.qualname}:compose",
             f"{f.module.rel}:{c.lineno}",
             ok,
-            f"`{norm(c)}`: indexes the {ri} permutation by the elements of the {ro} one" + ("" if ok else " - transpose(transpose(x, inner), outer) equals transpose(x, [inner[p] for p in outer]); the reverse order is only right when the permutations commute"),
+            f"`{norm(c)[:60]}`: indexes the {ri} permutation by the elements of the {ro} one" + ("" if ok else " - transpose(transpose(x, inner), outer) equals transpose(x, [inner[p] for p in outer]); the reverse order is only right when the permutations commute"),
         )
-    for c in takes:
-        ri, ro = _role(f, c.args[0]), _role(f, c.args[1])
-        rep.add("C05.R1", f"{f.qualname}:compose", f"{f.module.rel}:{c.lineno}", ri == "inner" and ro == "outer", f"`{norm(c)}`: takes from the {ri} permutation at the {ro} one")
 
 
 def _firing_returns(f):
@@ -107,152 +102,227 @@ def _firing_returns(f):
 def r2(p, rep):
     rep.rule("C05.R2", "merged reshape keeps the outer shape and the innermost operand", "T-DER [S]", floor=1)
     f = p.func("SkipReshape.__call__", "tracer.optimizer.classical")
+    P = Paths(p, f, identity_skipper(p))
     merges = [r for r in _firing_returns(f) if isinstance(r.value.elts[1], ast.Call) and norm(r.value.elts[1].func).endswith("python.call")]
     if not merges:
         raise AnalysisError("unrecognised idiom: SkipReshape has no merge rewrite")
-    x = f.params[1]
+    tr = f.params[2]
     for r in merges:
         call = r.value.elts[1]
         fn = call.args[0] if call.args else None
         lst = call.args[1] if len(call.args) > 1 else None
-        ok_fn = fn is not None and norm(fn) == f"transform({x}.origin.function)"
+        ok_fn = fn is not None and isinstance(fn, ast.Call) and norm(fn.func) == tr and P.path(fn.args[0]) == "x.origin.function"
         ok_args = isinstance(lst, ast.List) and len(lst.elts) == 2
-        why = ""
+        why = "merge call not in the form call(transform(x.origin.function), [transform(innermost), outer_shape])"
         if ok_args:
             a0, a1 = lst.elts
-            inner_operand = isinstance(a0, ast.Call) and norm(a0.func) == "transform" and _role(f, _resolve_local(f, a0.args[0])) == "inner"
-            outer_shape = _role(f, a1) == "outer"
+            p0 = P.path(a0.args[0]) if isinstance(a0, ast.Call) and norm(a0.func) == tr and a0.args else "?"
+            inner_operand = p0.count(".origin.args[0]") >= 2 and "x.origin.args[0]" in p0
+            outer_shape = P.path(a1) == "x.origin.args[1]"
             ok_args = inner_operand and outer_shape
-            why = f"operand `{norm(a0)}` ({'inner' if inner_operand else '?'}), shape `{norm(a1)}` ({'outer' if outer_shape else 'NOT the outer shape'})"
-        rep.add("C05.R2", f"{f.qualname}:merge", f"{f.module.rel}:{r.lineno}", ok_fn and ok_args, why or "merge call not in the form call(transform(x.origin.function), [transform(innermost), outer_shape])")
+            why = f"operand {p0} ({'innermost' if inner_operand else 'NOT the innermost operand'}), shape {P.path(a1)} ({'outer' if outer_shape else 'NOT the outer shape'})"
+        rep.add("C05.R2", f"{f.qualname}:merge", f"{f.module.rel}:{r.lineno}", ok_fn and ok_args, why)
 
 
-IDENTITY_TESTS = ("tuple(shape) == tuple(input.shape)", "tuple(perm) == tuple(range(input.ndim))", "len(tensors) == 1", "input_signature == output_signature")
+class Paths:
+    """Access paths of local values relative to the matched node parameter x of a pattern's __call__:
+    `input = x.origin.args[0]` -> 'x.origin.args[0]';  `input = _skip_id(input)` -> '~(x.origin.args[0])';
+    `cast = x.origin; cast.input` -> 'x.origin.input'."""
+
+    def __init__(self, p, f, skipper):
+        self.p, self.f, self.skipper = p, f, skipper
+        self.x = f.params[1]
+
+    def path(self, e, depth=0, before=None):
+        if depth > 10 or e is None:
+            return norm(e) if e is not None else "?"
+        if isinstance(e, ast.Name):
+            if e.id == self.x:
+                return "x"
+            defs = [n for n in walk_no_nested(self.f.node) if isinstance(n, ast.Assign) and len(n.targets) == 1 and isinstance(n.targets[0], ast.Name) and n.targets[0].id == e.id]
+            line = before if before is not None else getattr(e, "lineno", 10**9)
+            prior = [d for d in defs if d.lineno < line] or defs
+            if not prior:
+                return e.id
+            d = prior[-1]
+            return self.path(d.value, depth + 1, before=d.lineno)
+        if isinstance(e, ast.Attribute):
+            return self.path(e.value, depth + 1, before) + "." + e.attr
+        if isinstance(e, ast.Subscript):
+            return self.path(e.value, depth + 1, before) + "[" + norm(e.slice) + "]"
+        if isinstance(e, ast.Call):
+            r = resolve_callee(self.p, e, self.f.module)
+            if r and r[0] == "func" and r[1] is self.skipper and e.args:
+                return "~(" + self.path(e.args[0], depth + 1, before) + ")"
+            inner = ", ".join(self.path(a, depth + 1, before) for a in e.args)
+            return norm(e.func) + "(" + inner + ")"
+        if isinstance(e, (ast.ListComp, ast.GeneratorExp)):
+            g = e.generators[0]
+            return "[" + norm(e.elt) + " for " + norm(g.target) + " in " + self.path(g.iter, depth + 1, before) + "]"
+        return norm(e)
+
+    def is_subterm(self, e):
+        pth = self.path(e)
+        core = pth.replace("~(", "")
+        return core.startswith("x.") and core != "x", pth
+
+
+def _loop_guard_facts(f, cfg, ret_node):
+    """`for v in S: if C: return False, None` loops that precede the return: contribute (C, False)"""
+    out = []
+    for n in walk_no_nested(f.node):
+        if isinstance(n, ast.For) and len(n.body) == 1 and isinstance(n.body[0], ast.If) and not n.body[0].orelse:
+            iff = n.body[0]
+            if len(iff.body) == 1 and isinstance(iff.body[0], ast.Return) and isinstance(iff.body[0].value, ast.Tuple) and isinstance(iff.body[0].value.elts[0], ast.Constant) and iff.body[0].value.elts[0].value is False:
+                done = [e for e in cfg.nodes if e.kind == "edge" and e.ast is n and e.polarity is False]
+                if done and cfg.dominates(done[0], ret_node):
+                    out.append((iff.test, False))
+    return out
 
 
 def r3_r4(p, rep):
     rep.rule("C05.R3", "node-dropping rewrites are guarded by an identity test", "T-DOM", floor=5)
     rep.rule("C05.R4", "firing rewrites return a strict sub-term or one call over sub-terms", "decreasing measure", floor=8)
+    skipper = identity_skipper(p)
     n_drop = 0
     for c in patterns(p):
         f = c.methods["__call__"]
         cfg = CFG(f.node)
-        x = f.params[1]
+        P = Paths(p, f, skipper)
         tr = f.params[2] if len(f.params) > 2 else "transform"
         for r in _firing_returns(f):
             e = r.value.elts[1]
             site = f"{f.module.rel}:{r.lineno}"
-            key = f"{f.qualname}:return({norm(e)[:40]})"
-            facts = cfg.guards(cfg.node_for(r))
-            # R4: shape of the replacement
-            if isinstance(e, ast.Call) and isinstance(e.func, ast.Name) and e.func.id == tr and len(e.args) == 1:
-                v = _resolve_local(f, e.args[0])
-                sub = _is_subterm(f, e.args[0], x)
-                rep.add("C05.R4", key, site, sub, f"replacement transform({norm(e.args[0])}) is a strict sub-term of {x}" if sub else f"`{norm(e.args[0])}` is not derived from a strict sub-term of the matched node: the rewrite need not make the graph smaller")
-                # R3: dropping a node needs an equality guard
-                n_drop += 1
-                eqs = [t for t, pol in facts if pol and isinstance(t, ast.Compare) and len(t.ops) == 1 and isinstance(t.ops[0], ast.Eq)]
-                neqs = [t for t, pol in facts if pol is False and isinstance(t, ast.Compare) and len(t.ops) == 1 and isinstance(t.ops[0], ast.NotEq)]
-                guards = eqs + neqs
-                good = [g for g in guards if _identity_guard(f, g, x)]
-                # InlineGraph: guarded by id-list inequality returning False before
-                if c.name == "InlineGraph":
-                    pre = [t for t, pol in facts if pol is False and isinstance(t, ast.Compare) and isinstance(t.ops[0], ast.NotEq) and "id(i)" in norm(t)]
-                    dep = [t for t, pol in facts if pol is False and "depends_on" in norm(t)]
-                    kw = [t for t, pol in facts if pol and "kwargs" in norm(t) and "== 0" in norm(t)]
-                    ok = bool(pre) and bool(dep) and bool(kw)
-                    rep.add("C05.R3", key, site, ok, "inlined only when the call takes exactly the graph inputs (identity), no keywords, and the function does not depend on them" if ok else "the wrapper graph is inlined without all of: same inputs by identity, no keywords, function independent of the inputs")
+            rn = cfg.node_for(r)
+            facts = cfg.guards(rn) + _loop_guard_facts(f, cfg, rn)
+            # facts with locals replaced by access paths
+            rfacts = []
+            for t, pol in facts:
+                if isinstance(t, ast.Compare) and len(t.ops) == 1:
+                    rfacts.append((type(t.ops[0]).__name__, P.path(t.left), P.path(t.comparators[0]), pol, t))
+                elif isinstance(t, ast.Call):
+                    rfacts.append(("call", P.path(t), "", pol, t))
                 else:
-                    rep.add("C05.R3", key, site, bool(good), f"dropped only under `{norm(good[0])}`" if good else f"the node is dropped without an equality test between its parameter and its operand's shape/rank/signature (guards: {[norm(t) for t, _ in facts][-3:]})")
+                    rfacts.append(("expr", P.path(t), "", pol, t))
+            if isinstance(e, ast.Call) and isinstance(e.func, ast.Name) and e.func.id == tr and len(e.args) == 1:
+                sub, pth = P.is_subterm(e.args[0])
+                key = f"{f.qualname}:return(transform({pth}))"
+                rep.add("C05.R4", key, site, sub, f"replacement transform({pth}) is a strict sub-term of the matched node" if sub else f"`{norm(e.args[0])}` (= {pth}) is not derived from a strict sub-term of the matched node: the rewrite need not make the graph smaller")
+                n_drop += 1
+                if c.name == "InlineGraph" or ".function" in pth:
+                    same = any((k in ("NotEq",) and not pol or k in ("Eq",) and pol) and "x.inputs" in (a + b) and ".args" in (a + b) for k, a, b, pol, t in rfacts) or any(k == "call" and pol and "x.inputs" in a and ".args" in a and _helper_compares_identity(p, f, t) for k, a, b, pol, t in rfacts)
+                    nokw = any(".kwargs" in (a + b) and ((k == "Eq" and pol and (a == "0" or b == "0")) or (k == "NotEq" and not pol and (a == "0" or b == "0")) or (k == "expr" and not pol)) for k, a, b, pol, t in rfacts)
+                    indep = any("depends_on(" in (a + b) and not pol for k, a, b, pol, t in rfacts)
+                    ok = same and nokw and indep
+                    rep.add("C05.R3", key, site, ok, "inlined only when the call takes exactly the graph inputs (identity), no keywords, and the function does not depend on them" if ok else f"the wrapper graph is inlined without all of: same inputs by identity ({same}), no keywords ({nokw}), function independent of the inputs ({indep})")
+                else:
+                    good = []
+                    for k, a, b, pol, t in rfacts:
+                        if not ((k == "Eq" and pol) or (k == "NotEq" and not pol)):
+                            continue
+                        both = a + " " + b
+                        if "len(" in both and (a == "1" or b == "1"):
+                            good.append(t)  # a one-element concatenation
+                        elif "x.origin.input" in both and "x.origin.output" in both:
+                            good.append(t)  # cast: signature(input) == signature(output)
+                        elif ("x.origin.args[1]" in both) and ((".shape" in both) or (".ndim" in both)) and "x.origin.args[0]" in both:
+                            good.append(t)  # parameter of the node vs shape / rank of its operand
+                    rep.add("C05.R3", key, site, bool(good), f"dropped only under `{norm(good[0])}`" if good else f"the node is dropped without an equality test between its parameter and its operand's shape/rank/signature (guards: {[(k, a, b, pol) for k, a, b, pol, t in rfacts][-3:]})")
             elif isinstance(e, ast.Call) and norm(e.func).endswith("python.call"):
-                # one constructor call over sub-terms two levels down
                 subs = [a for a in ast.walk(e) if isinstance(a, ast.Call) and isinstance(a.func, ast.Name) and a.func.id == tr]
-                ok = all(_is_subterm(f, s.args[0], x) for s in subs) and bool(subs)
-                deep = any("input_of_input" in norm(s) or _depth2(f, s.args[0], x) for s in subs)
-                rep.add("C05.R4", key, site, ok and deep, "two nested calls are replaced by one call over the innermost operand" if ok and deep else "the merge does not remove a node (operand is not two levels down)")
+                paths = [P.is_subterm(s_.args[0]) for s_ in subs]
+                ok = bool(subs) and all(su for su, _ in paths)
+                deep = any(pt.count(".origin.args[0]") >= 2 for _, pt in paths)
+                key = f"{f.qualname}:return(merge)"
+                rep.add("C05.R4", key, site, ok and deep, f"two nested calls are replaced by one call over the innermost operand ({[pt for _, pt in paths]})" if ok and deep else f"the merge does not remove a node (operands {[pt for _, pt in paths]} are not two levels down)")
             else:
-                rep.add("C05.R4", key, site, False, f"replacement `{norm(e)[:60]}` is neither transform(<sub-term>) nor one call over sub-terms")
+                rep.add("C05.R4", f"{f.qualname}:return({norm(e)[:40]})", site, False, f"replacement `{norm(e)[:60]}` is neither transform(<sub-term>) nor one call over sub-terms")
     if n_drop < 5:
         raise AnalysisError(f"only {n_drop} node-dropping rewrites found")
 
 
-def _is_subterm(f, e, x):
-    """e derives from x.origin.<...> / x.output / x.inputs through locals, subscripts and _skip_id"""
-    e0 = e
-    for _ in range(8):
-        t = norm(e)
-        if t.startswith(f"{x}.origin.") or t.startswith(f"{x}.output") or t.startswith(f"{x}.inputs"):
-            return True
-        if isinstance(e, ast.Name):
-            defs = [n.value for n in walk_no_nested(f.node) if isinstance(n, ast.Assign) and any(isinstance(tg, ast.Name) and tg.id == e.id for tg in n.targets)]
-            if not defs:
-                return False
-            if all(_is_subterm(f, d, x) if not (isinstance(d, ast.Call) and norm(d.func) == "_skip_id" and isinstance(d.args[0], ast.Name) and d.args[0].id == e.id) else True for d in defs):
-                return True
-            return False
-        if isinstance(e, ast.Subscript):
-            e = e.value
-            continue
-        if isinstance(e, ast.Attribute):
-            e = e.value
-            continue
-        if isinstance(e, ast.Call) and norm(e.func) == "_skip_id" and e.args:
-            e = e.args[0]
-            continue
+def _helper_compares_identity(p, f, call):
+    r = resolve_callee(p, call, f.module)
+    if not (r and r[0] == "func"):
         return False
-    return False
+    body = " ".join(norm(st) for st in r[1].node.body)
+    return " is " in body or "id(" in body
 
 
-def _depth2(f, e, x):
-    t = norm(_resolve_local(f, e))
-    return ".origin.args[0]" in t and not t.startswith(f"{x}.")
+def _arm_bodies(p, f):
+    """value-kind arms of Optimizer._optimize: kind -> (statements, name of the matched value), expanding an arm that
+    only delegates to a method of the same class (`return self._optimize_graph(x)`)."""
+    from sa.exh import find_chains
 
-
-def _identity_guard(f, g, x):
-    """equality between something derived from the node's own parameter and something derived from its operand"""
-    l, r = norm(g.left), norm(g.comparators[0])
-    both = l + " " + r
-    if "len(" in both and (l == "1" or r == "1"):
-        return True
-    if "signature" in l and "signature" in r:
-        return True
-    return (".shape" in both or ".ndim" in both) and ("shape" in both or "perm" in both)
+    chains = [c for c in find_chains(p, f) if c.kind == "class"]
+    if not chains:
+        raise AnalysisError("unrecognised idiom: Optimizer._optimize has no isinstance dispatch over value kinds")
+    ch = max(chains, key=lambda c: len(c.arms))
+    out = {}
+    cur = ch.head
+    while True:
+        arm = [a for a in ch.arms if a.test is cur.test][0]
+        kinds = [c.name for c in arm.classes] + [t.split(".")[-1] for t in arm.other_types]
+        body, xname = cur.body, ch.subject
+        if len(body) == 1 and isinstance(body[0], ast.Return) and isinstance(body[0].value, ast.Call) and isinstance(body[0].value.func, ast.Attribute) and isinstance(body[0].value.func.value, ast.Name) and f.cls is not None:
+            m = p.lookup_method(f.cls, body[0].value.func.attr)
+            if m is not None and len(body[0].value.args) == 1 and norm(body[0].value.args[0]) == ch.subject and len(m.params) >= 2:
+                body, xname = m.node.body, m.params[1]
+        for k in kinds:
+            out[k] = (body, xname)
+        if len(cur.orelse) == 1 and isinstance(cur.orelse[0], ast.If):
+            cur = cur.orelse[0]
+        else:
+            break
+    return out
 
 
 def r5(p, rep):
-    rep.rule("C05.R5", "values that no pattern matched are rebuilt completely", "T-SIB (rebuild completeness)", floor=5)
+    rep.rule("C05.R5", "values that no pattern matched are rebuilt completely", "T-SIB (rebuild completeness per value kind)", floor=5)
     f = p.func("Optimizer._optimize", "tracer.optimizer.optimizer")
-    x = f.params[1]
-    found = set()
-    for n in walk_no_nested(f.node):
-        if not isinstance(n, ast.Return):
-            continue
-        v = n.value
-        site = f"{f.module.rel}:{n.lineno}"
-        if isinstance(v, ast.Call) and isinstance(v.func, ast.Name) and v.func.id == "slice":
-            found.add("slice")
-            parts = [norm(a) for a in v.args]
-            need = [f"{x}.start", f"{x}.stop", f"{x}.step"]
-            ok = len(v.args) == 3 and all(need[i] in parts[i] for i in range(3))
-            rep.add("C05.R5", f"{f.qualname}:rebuild:slice", site, ok, f"slice rebuilt from {parts}" + ("" if ok else f": a component of {need} is dropped, e.g. x[::-1] silently becomes x[:]"))
-        elif isinstance(v, ast.Call) and norm(v.func).endswith("Graph"):
-            found.add("Graph")
-            ok = len(v.args) + len(v.keywords) >= 3 and f"{x}.name" in norm(v)
-            rep.add("C05.R5", f"{f.qualname}:rebuild:Graph", site, ok, f"Graph rebuilt as {norm(v)[:70]}")
-        elif isinstance(v, (ast.ListComp, ast.DictComp)) or (isinstance(v, ast.Call) and isinstance(v.func, ast.Name) and v.func.id == "tuple"):
-            kind = "dict" if isinstance(v, ast.DictComp) else ("list" if isinstance(v, ast.ListComp) else "tuple")
-            found.add(kind)
-            comp = v if not isinstance(v, ast.Call) else v.args[0]
-            gens = comp.generators
-            ok = len(gens) == 1 and not gens[0].ifs and norm(gens[0].iter).startswith(x)
-            if kind == "dict":
-                ok = ok and "_optimize(k)" in norm(v) and "_optimize(v)" in norm(v)
-            rep.add("C05.R5", f"{f.qualname}:rebuild:{kind}", site, ok, f"{kind} rebuilt element-wise without filter" if ok else f"{kind} rebuild drops or filters elements: {norm(v)[:70]}")
-    for need in ("slice", "Graph", "list", "tuple", "dict"):
-        if need not in found:
-            raise AnalysisError(f"unrecognised idiom: Optimizer._optimize has no rebuild for {need}")
+    arms = _arm_bodies(p, f)
+    site = f.loc
+
+    def reads(body, x):
+        return {n.attr for st in body for n in ast.walk(st) if isinstance(n, ast.Attribute) and isinstance(n.value, ast.Name) and n.value.id == x}
+
+    def iterates_fully(body, x, items=False):
+        """the arm iterates x (or x.items()) in a for-loop / comprehension without filter, break or continue"""
+        want = f"{x}.items()" if items else x
+        for st in body:
+            for n in ast.walk(st):
+                if isinstance(n, ast.comprehension) and norm(n.iter) == want:
+                    if not n.ifs:
+                        return True
+                if isinstance(n, ast.For) and norm(n.iter) == want:
+                    if not any(isinstance(y, (ast.Break, ast.Continue)) for y in ast.walk(n)) and not any(isinstance(y, ast.If) for y in n.body):
+                        return True
+        return False
+
+    need = {"slice", "Graph", "dict"}
+    if not need <= set(arms) or not ({"list", "tuple"} & set(arms)):
+        raise AnalysisError(f"unrecognised idiom: Optimizer._optimize lacks a rebuild arm for one of slice/Graph/list/tuple/dict (found {sorted(arms)})")
+    body, x = arms["slice"]
+    r = reads(body, x)
+    calls = [n for st in body for n in ast.walk(st) if isinstance(n, ast.Call) and isinstance(n.func, ast.Name) and n.func.id == "slice"]
+    ok = {"start", "stop", "step"} <= r and any(len(c.args) == 3 for c in calls)
+    rep.add("C05.R5", f"{f.qualname}:rebuild:slice", site, ok, f"slice rebuilt from {sorted(r & {'start', 'stop', 'step'})} with a 3-argument slice(...)" if ok else f"the slice arm reads only {sorted(r)} / builds slice({[len(c.args) for c in calls]} args): a component of start/stop/step is dropped, e.g. x[::-1] silently becomes x[:]")
+    body, x = arms["Graph"]
+    r = reads(body, x)
+    ok = {"inputs", "output", "name"} <= r
+    rep.add("C05.R5", f"{f.qualname}:rebuild:Graph", site, ok, "Graph rebuilt from inputs, output and name" if ok else f"the Graph arm reads only {sorted(r)}")
+    for kind in ("list", "tuple"):
+        if kind in arms:
+            body, x = arms[kind]
+            ok = iterates_fully(body, x)
+            rep.add("C05.R5", f"{f.qualname}:rebuild:{kind}", site, ok, f"{kind} rebuilt element-wise without filter" if ok else f"the {kind} arm does not rebuild every element")
+    body, x = arms["dict"]
+    text = " ".join(norm(st) for st in body)
+    ok = iterates_fully(body, x, items=True) and text.count("_optimize(") >= 2
+    rep.add("C05.R5", f"{f.qualname}:rebuild:dict", site, ok, "dict rebuilt over all items, keys and values transformed" if ok else "the dict arm does not rebuild every key and value")
     # tracer branch: delegates to _tracer_transform (checked per class by C04.R4d)
-    ok = any(isinstance(n, ast.Call) and isinstance(n.func, ast.Attribute) and n.func.attr == "_tracer_transform" for n in walk_no_nested(f.node))
+    fs = common.with_helpers(p, f)
+    ok = any(isinstance(n, ast.Call) and isinstance(n.func, ast.Attribute) and n.func.attr == "_tracer_transform" for n in common.nodes_of(fs))
     rep.add("C05.R5", f"{f.qualname}:rebuild:tracer", f.loc, ok, "tracers are rebuilt by origin._tracer_transform(self._optimize) (completeness per node class: C04.R4)")
 
 
@@ -274,24 +344,53 @@ def r6(p, rep):
         ok = bool(breaks) and all(any(norm(t).endswith(".changed") and pol is False for t, pol in cfg.guards(cfg.node_for(b))) for b in breaks)
     else:
         ok = "changed" in norm(w.test)
+        if not ok:
+            names = {x.id for x in ast.walk(w.test) if isinstance(x, ast.Name)}
+            inloop = [a for a in ast.walk(w) if isinstance(a, ast.Assign) and any(isinstance(t, ast.Name) and t.id in names for t in a.targets)]
+            # flag loop: `done = not optimizer.changed` / `again = optimizer.changed`, no other exit
+            ok = bool(inloop) and all(".changed" in norm(a.value) for a in inloop) and not breaks
+            if ok:
+                a = inloop[-1]
+                negated_assign = isinstance(a.value, ast.UnaryOp) and isinstance(a.value.op, ast.Not)
+                negated_test = isinstance(w.test, ast.UnaryOp) and isinstance(w.test.op, ast.Not)
+                ok = negated_assign == negated_test  # continue exactly while the last pass changed something
     rep.add("C05.R6", f"{f.qualname}:exit-condition", f"{f.module.rel}:{w.lineno}", ok, "the loop is left only when a whole pass fired no pattern" if ok else "the loop can be left although the last pass still changed the graph (no fixed point)")
     g = p.func("Optimizer._optimize", "tracer.optimizer.optimizer")
     cfgg = CFG(g.node)
-    fired = [n for n in walk_no_nested(g.node) if isinstance(n, ast.Return) and norm(n.value) == "newobj"]
-    if not fired:
-        raise AnalysisError("unrecognised idiom: no `return newobj` in Optimizer._optimize")
+    setc = [n for n in walk_no_nested(g.node) if isinstance(n, ast.Assign) and norm(n.targets[0]).endswith(".changed") and isinstance(n.value, ast.Constant) and n.value.value is True]
+    if not setc:
+        raise AnalysisError("unrecognised idiom: Optimizer._optimize never sets the changed flag")
+    # fired returns: value returns that lie in the same block as the flag assignment (the pattern-fired path)
+    fired = []
+    for sc in setc:
+        par = getattr(sc, "_parent", None)
+        for fld in ("body", "orelse"):
+            blk = getattr(par, fld, None)
+            if isinstance(blk, list) and sc in blk:
+                fired += [st for st in blk if isinstance(st, ast.Return) and st.value is not None]
+    # a return reachable on the fired path (pattern matched) that is NOT dominated by the flag assignment
+    pattern_calls = [n for n in common.nodes_of(common.with_helpers(p, g)) if isinstance(n, ast.Call) and len(n.args) == 2 and norm(n.args[1]).endswith("._optimize")]
+    if not fired or not pattern_calls:
+        raise AnalysisError("unrecognised idiom: pattern application / fired return not found in Optimizer._optimize")
+    memo = [n for n in walk_no_nested(g.node) if isinstance(n, ast.Expr) and "._set" in norm(n.value)]
     for r in fired:
         rn = cfgg.node_for(r)
-        setc = [n for n in walk_no_nested(g.node) if isinstance(n, ast.Assign) and norm(n.targets[0]).endswith(".changed") and isinstance(n.value, ast.Constant) and n.value.value is True]
-        memo = [n for n in walk_no_nested(g.node) if isinstance(n, ast.Expr) and "._set" in norm(n.value)]
-        ok1 = any(cfgg.dominates(cfgg.node_for(s), rn) for s in setc)
+        ok1 = any(cfgg.dominates(cfgg.node_for(s_), rn) for s_ in setc)
         ok2 = any(cfgg.dominates(cfgg.node_for(m), rn) for m in memo)
         rep.add("C05.R6", f"{g.qualname}:changed-before-return", f"{g.module.rel}:{r.lineno}", ok1, "self.changed = True dominates the fired return" if ok1 else "a pattern can fire without setting the changed flag: the fixed-point loop stops one pass early")
         rep.add("C05.R6", f"{g.qualname}:memo-before-return", f"{g.module.rel}:{r.lineno}", ok2, "the old->new memo is updated before the fired return" if ok2 else "the rewritten node is not memoised: a shared sub-graph is rewritten into several distinct copies")
-    # memo lookup comes first
-    first = g.node.body[0]
-    ok = isinstance(first, ast.If) and "id_to_newobj" in norm(first.test)
-    rep.add("C05.R6", f"{g.qualname}:memo-lookup-first", g.loc, ok, "memo hit is returned before any pattern is tried (shared nodes stay shared)")
+    # memo lookup comes first: the first statement(s) return the memoised object before any pattern is tried
+    hit = None
+    for st in g.node.body[:3]:
+        if isinstance(st, ast.If) and any(isinstance(x, ast.Return) for x in st.body):
+            text = norm(st.test) + " " + " ".join(norm(b) for b in st.body)
+            prior = " ".join(norm(b) for b in g.node.body[: g.node.body.index(st)])
+            if "id_to_newobj" in text or "id_to_newobj" in prior:
+                hit = st
+                break
+    first_pattern = min((cfgg.node_for(c) for c in walk_no_nested(g.node) if isinstance(c, ast.Call) and (c in pattern_calls or (isinstance(c.func, ast.Attribute) and p.lookup_method(g.cls, c.func.attr) in common.with_helpers(p, g)[1:] and any(pc for pc in pattern_calls)))), key=lambda n: n.id if n else 10**9, default=None)
+    ok = hit is not None
+    rep.add("C05.R6", f"{g.qualname}:memo-lookup-first", g.loc, ok, "memo hit is returned before any pattern is tried (shared nodes stay shared)" if ok else "the memo of already rewritten nodes is not consulted first")
 
 
 PRIM_ALIASES = {
@@ -319,27 +418,49 @@ def r7(p, rep):
         raise AnalysisError(f"only {n} pattern instantiations found in frontend/impl")
 
 
+def identity_skipper(p):
+    """the function the optimiser uses to look through identity nodes: the callee that InlineGraph applies to the
+    graph's output (found by role, so renaming / moving it is fine)"""
+    ig = p.cls("InlineGraph", "tracer.optimizer.graph")
+    call = ig.methods["__call__"]
+    x = call.params[1]
+    for n in walk_no_nested(call.node):
+        if isinstance(n, ast.Call) and n.args and norm(n.args[0]) == f"{x}.output":
+            r = resolve_callee(p, n, call.module)
+            if r and r[0] == "func":
+                return r[1]
+    raise AnalysisError("unrecognised idiom: InlineGraph.__call__ does not pass x.output through an identity-skipping helper")
+
+
 def r8(p, rep):
-    rep.rule("C05.R8", "only identity casts are looked through when matching", "T-EFF (classes tested by _skip_id)", floor=1)
-    f = p.func("_skip_id", "tracer.optimizer._util")
+    rep.rule("C05.R8", "only identity casts are looked through when matching", "T-EFF (IR classes tested by the identity skipper)", floor=1)
+    f = identity_skipper(p)
+    base, subs = ir.application_classes(p)
     tested = []
-    for n in walk_no_nested(f.node):
-        if isinstance(n, ast.Call) and isinstance(n.func, ast.Name) and n.func.id == "isinstance" and len(n.args) == 2 and norm(n.args[0]) == "origin":
+    for n in common.nodes_of(common.with_helpers(p, f)):
+        if isinstance(n, ast.Call) and isinstance(n.func, ast.Name) and n.func.id == "isinstance" and len(n.args) == 2:
             t = n.args[1]
-            items = t.elts if isinstance(t, ast.Tuple) else ([t.left, t.right] if isinstance(t, ast.BinOp) else [t])
-            flat = []
-            for it in items:
-                if isinstance(it, ast.BinOp):
-                    flat += [it.left, it.right]
+            items = []
+
+            def flat(e):
+                if isinstance(e, ast.Tuple):
+                    for y in e.elts:
+                        flat(y)
+                elif isinstance(e, ast.BinOp) and isinstance(e.op, ast.BitOr):
+                    flat(e.left)
+                    flat(e.right)
                 else:
-                    flat.append(it)
-            for it in flat:
+                    items.append(e)
+
+            flat(t)
+            for it in items:
                 r = p.resolve_expr(f.module, it, f.node)
-                tested.append(r[1].name if r and r[0] == "class" else norm(it))
+                if r and r[0] == "class" and (r[1] in subs or r[1] is base):
+                    tested.append(r[1].name)
     if not tested:
-        raise AnalysisError("unrecognised idiom: _skip_id tests no origin class")
+        raise AnalysisError(f"unrecognised idiom: {f.qualname} tests no IR node class")
     ok = set(tested) <= {"Cast"}
-    rep.add("C05.R8", f"{f.qualname}:skipped-classes", f.loc, ok, f"_skip_id looks through {sorted(set(tested))}" + ("" if ok else ": nodes with an effect (run-time asserts on adapter / factory outputs, calls) are treated as identities, so InlineGraph / merge rewrites drop them"))
+    rep.add("C05.R8", "optimizer:identity-skipper:skipped-classes", f.loc, ok, f"{f.name} looks through {sorted(set(tested))}" + ("" if ok else ": nodes with an effect (run-time asserts on adapter / factory outputs, calls) are treated as identities, so InlineGraph / merge rewrites drop them"))
 
 
 def run(p, rep, tier):
